@@ -153,6 +153,7 @@ def run(sid, tier="quick", props=None):
             print(sid, prop, "exit", rc, lines[:2], replay_type)
     finally:
         sh(["git", "-C", "/repo", "checkout", "--", "."])
+        sh(["git", "-C", "/repo", "clean", "-fdq", "--", "dlms_cosem"])      # files a patch added
         sh(["git", "-C", VERIF, "checkout", "--", "evidence"])
     res_path = os.path.join(d, "result.json")
     old = json.load(open(res_path)) if os.path.exists(res_path) else {}
